@@ -48,6 +48,15 @@ CHECKS["C08"] = dict(level="fault_enumeration", ref="DESIGN.md §4 C08",
     note="Trusted: clang 14 ASan/UBSan as the memory/UB oracle; message budget (400000) and a 120 s watchdog bound runaway inputs (counted inconclusive, never a violation). Known findings KF14-KF16 (UBSan reports in readers for damaged input) are listed by call site; any other site fails the check.",
     technique="deterministic simulation: seeded fault sequences (stored-byte, file, allocation and argument faults) under ASan/UBSan with exit trap, followed by reload and fresh-instance reference execution")
 
+CHECKS["C05"] = dict(level="exploration", ref="DESIGN.md §4 C05",
+    text="Seeded search over run histories with generated SELECTED_OUTPUT/USER_PUNCH blocks (arbitrary user numbers, option sets, high precision, fewer/more punched "
+         "values than headings, strings of length 0..26, redefinition, PRINT -selected_output false), per-user file/string switches, names and current user number. "
+         "The value table, the string, the line accessors, the file bytes captured by the simulated file layer and the C / Fortran-glue accessors are treated as "
+         "replicas of one write path and compared cell by cell (numbers re-rendered in the text cell's own format), with out-of-range and unknown-user-number sweeps "
+         "and a configuration that fails the block's file sink.",
+    note="Trusted: the format-agnostic re-rendering of doubles (Python %e/%f/%g equals C printf for finite values), heading-name mapping with positional fallback. Known findings KF17/KF18 (= KF1/KF4 seen through this property) are reported as KNOWN-FINDING.",
+    technique="deterministic simulation: seeded sink-configuration histories over a simulated file layer; replica agreement between table, string, lines, file and bindings; sink faults")
+
 NA = {
     "C01": "pure function of (input, database): deciding it needs an independent thermodynamic evaluator, no schedule, clock, fault or call history takes part",
     "C03": "pure function of the input assemblage; the only fault-like path (solver retry ladder) is exercised under C02",
@@ -60,7 +69,7 @@ NA = {
     "C19": "pure function of the gas-phase input",
     "C20": "pure function of the surface input",
 }
-PENDING = {k: "claimed in DESIGN.md; its check is still under construction in this build phase and is not registered yet" for k in ("C02","C04","C05","C10","C14")}
+PENDING = {k: "claimed in DESIGN.md; its check is still under construction in this build phase and is not registered yet" for k in ("C02","C04","C10","C14")}
 
 
 def main():
